@@ -112,4 +112,296 @@ Proof.
   apply vers_ok_ascending with (top := vd_vid c); [reflexivity|exact Hv].
 Qed.
 
+
+(* ---- (d) paging ---- *)
+
+(* the entries of one item / of a list of items that a request with markers (km, vm) lists
+   when there is no limit *)
+Definition key_entries (pre : list N) (delim : option N) (km : list N) (vm : option N)
+    (kv : list N * obj) : list ventry :=
+  match prefix_match pre delim (fst kv) with
+  | MContent =>
+      if negb (beq km []) && beq (fst kv) km then
+        match vm with
+        | None => []
+        | Some m => filter (fun v => N.ltb m (ve_vid v)) (obj_versions (fst kv) (snd kv))
+        end
+      else obj_versions (fst kv) (snd kv)
+  | _ => []
+  end.
+
+Definition ventries (pre : list N) (delim : option N) (km : list N) (vm : option N)
+    (items : list (list N * obj)) : list ventry :=
+  flat_map (key_entries pre delim km vm) items.
+
+(* no item carries the marker key: nothing is filtered *)
+Lemma ventries_nomarker pre delim km vm items :
+  km = [] \/ (forall kv, In kv items -> fst kv <> km) ->
+  ventries pre delim km vm items = all_versions pre delim items.
+Proof.
+  intros H. induction items as [|kv items IH]; [reflexivity|].
+  unfold ventries, all_versions in *. cbn [flat_map]. rewrite IH.
+  - f_equal. unfold key_entries. destruct (prefix_match pre delim (fst kv)); try reflexivity.
+    assert (E : negb (beq km []) && beq (fst kv) km = false).
+    { destruct H as [->|H]; [reflexivity|].
+      assert (fst kv <> km) by (apply H; left; reflexivity).
+      apply beq_neq in H0. rewrite H0. apply andb_false_r. }
+    rewrite E. reflexivity.
+  - destruct H as [H|H]; [left; exact H|right]. intros kv' Hin. apply H. right. exact Hin.
+Qed.
+
+(* one key's entries against a page limit *)
+Lemma take_spec mk : 1 <= mk -> forall vs cnt acc, cnt < mk ->
+  (take_versions vs mk cnt acc = (acc ++ vs, cnt + Z.of_nat (length vs), None) /\
+   cnt + Z.of_nat (length vs) < mk) \/
+  (exists l e more, vs = l ++ e :: more /\ cnt + Z.of_nat (length l) + 1 = mk /\
+     take_versions vs mk cnt acc = (acc ++ l ++ [e], mk, Some (e, more))).
+Proof.
+  intros Hmk. induction vs as [|v vs IH]; intros cnt acc Hc; cbn [take_versions].
+  - left. rewrite app_nil_r. cbn [length]. replace (cnt + Z.of_nat 0) with cnt by lia. split; [reflexivity|lia].
+  - destruct ((0 <? mk) && (mk <=? cnt + 1)) eqn:Ef.
+    + right. exists [], v, vs. cbn [app length]. split; [reflexivity|]. split; [lia|].
+      replace (cnt + 1) with mk by lia. reflexivity.
+    + destruct (IH (cnt + 1) (acc ++ [v])) as [[Et Hlt]|(l & e & more & Evs & Hcnt & Et)]; [lia| |].
+      * left. rewrite Et. rewrite <- app_assoc. cbn [app length].
+        replace (cnt + 1 + Z.of_nat (length vs)) with (cnt + Z.of_nat (S (length vs))) by lia.
+        split; [reflexivity|lia].
+      * right. exists (v :: l), e, more. split; [rewrite Evs; reflexivity|]. split; [cbn [length]; lia|].
+        rewrite Et. rewrite <- app_assoc. reflexivity.
+Qed.
+
+(* one-page split lemma: the page lists a prefix l1 of the unlimited entry list; if it is not
+   truncated that is everything; if it is, the page is full and the markers name its last entry *)
+Lemma scan_page pre delim km vm mk : 1 <= mk -> forall items cnt acc ps, cnt < mk ->
+  exists l1 l2,
+    ventries pre delim km vm items = l1 ++ l2 /\
+    vl_entries (scan_versions pre delim km vm mk items cnt acc ps) = acc ++ l1 /\
+    cnt + Z.of_nat (length l1) <= mk /\
+    ((vl_truncated (scan_versions pre delim km vm mk items cnt acc ps) = false /\ l2 = []) \/
+     (vl_truncated (scan_versions pre delim km vm mk items cnt acc ps) = true /\
+      exists l e, l1 = l ++ [e] /\
+        vl_next_key (scan_versions pre delim km vm mk items cnt acc ps) = ve_key e /\
+        vl_next_vid (scan_versions pre delim km vm mk items cnt acc ps) = ve_vid e)).
+Proof.
+  intros Hmk. induction items as [|[k o] rest IH]; intros cnt acc ps Hc.
+  - cbn [scan_versions vl_entries vl_truncated]. exists [], []. cbn [app length].
+    rewrite app_nil_r. repeat split; [lia|]. left. auto.
+  - (* an item that contributes the entries vs' *)
+    assert (Htake : forall vs',
+      key_entries pre delim km vm (k, o) = vs' ->
+      forall r,
+      r = match take_versions vs' mk cnt acc with
+          | (acc', cnt', None) => scan_versions pre delim km vm mk rest cnt' acc' ps
+          | (acc', cnt', Some (last_v, more)) =>
+              let trunc := match more, rest with [], [] => false | _, _ => true end in
+              {| vl_entries := acc'; vl_prefixes := ps; vl_truncated := trunc;
+                 vl_next_key := if trunc then ve_key last_v else [];
+                 vl_next_vid := if trunc then ve_vid last_v else 0%N |}
+          end ->
+      exists l1 l2,
+        ventries pre delim km vm ((k, o) :: rest) = l1 ++ l2 /\
+        vl_entries r = acc ++ l1 /\
+        cnt + Z.of_nat (length l1) <= mk /\
+        ((vl_truncated r = false /\ l2 = []) \/
+         (vl_truncated r = true /\
+          exists l e, l1 = l ++ [e] /\ vl_next_key r = ve_key e /\ vl_next_vid r = ve_vid e))).
+    { intros vs' Ek r Er. unfold ventries. cbn [flat_map]. rewrite Ek. fold (ventries pre delim km vm rest).
+      destruct (take_spec mk Hmk vs' cnt acc Hc) as [[Et Hlt]|(l & e & more & Evs & Hcnt & Et)];
+        rewrite Et in Er.
+      - destruct (IH (cnt + Z.of_nat (length vs')) (acc ++ vs') ps Hlt) as (l1 & l2 & E & C & B & T).
+        rewrite <- Er in *. exists (vs' ++ l1), l2. split; [rewrite E, app_assoc; reflexivity|].
+        split; [rewrite C, app_assoc; reflexivity|]. split; [rewrite app_length; lia|].
+        destruct T as [T|(T1 & l & e & T2 & T3 & T4)]; [left; exact T|right].
+        split; [exact T1|]. exists (vs' ++ l), e. rewrite T2, app_assoc. auto.
+      - exists (l ++ [e]), (more ++ ventries pre delim km vm rest).
+        split; [rewrite Evs; rewrite <- !app_assoc; reflexivity|].
+        split; [rewrite Er; reflexivity|]. split; [rewrite app_length; cbn [length]; lia|].
+        destruct more as [|m0 more]; [destruct rest as [|it rest']|].
+        + left. rewrite Er. cbn. auto.
+        + right. rewrite Er. cbn [vl_truncated vl_next_key vl_next_vid]. split; [reflexivity|]. exists l, e. auto.
+        + right. rewrite Er. cbn [vl_truncated vl_next_key vl_next_vid]. split; [reflexivity|]. exists l, e. auto. }
+    (* an item that is skipped *)
+    assert (Hskip : forall ps', key_entries pre delim km vm (k, o) = [] ->
+      exists l1 l2,
+        ventries pre delim km vm ((k, o) :: rest) = l1 ++ l2 /\
+        vl_entries (scan_versions pre delim km vm mk rest cnt acc ps') = acc ++ l1 /\
+        cnt + Z.of_nat (length l1) <= mk /\
+        ((vl_truncated (scan_versions pre delim km vm mk rest cnt acc ps') = false /\ l2 = []) \/
+         (vl_truncated (scan_versions pre delim km vm mk rest cnt acc ps') = true /\
+          exists l e, l1 = l ++ [e] /\
+            vl_next_key (scan_versions pre delim km vm mk rest cnt acc ps') = ve_key e /\
+            vl_next_vid (scan_versions pre delim km vm mk rest cnt acc ps') = ve_vid e))).
+    { intros ps' Ek. unfold ventries. cbn [flat_map]. rewrite Ek. cbn [app]. apply IH. exact Hc. }
+    cbn [scan_versions].
+    destruct (prefix_match pre delim k) eqn:Epm.
+    + apply Hskip. unfold key_entries. cbn [fst]. rewrite Epm. reflexivity.
+    + destruct (negb (beq km []) && beq k km) eqn:Em.
+      * destruct vm as [m|].
+        -- eapply Htake; [|reflexivity]. unfold key_entries. cbn [fst snd]. rewrite Epm, Em. reflexivity.
+        -- apply Hskip. unfold key_entries. cbn [fst]. rewrite Epm, Em. reflexivity.
+      * eapply Htake; [|reflexivity]. unfold key_entries. cbn [fst snd]. rewrite Epm, Em. reflexivity.
+    + apply Hskip. unfold key_entries. cbn [fst]. rewrite Epm. reflexivity.
+Qed.
+
+(* ---- linking consecutive pages ---- *)
+Lemma obj_versions_key k o e : In e (obj_versions k o) -> ve_key e = k.
+Proof.
+  unfold obj_versions. intros H. apply in_app_or in H. destruct H as [H|H].
+  - apply in_map_iff in H. destruct H as (v & <- & _). reflexivity.
+  - destruct (o_data o) as [c|]; [|destruct H]. destruct H as [<-|[]]. reflexivity.
+Qed.
+
+Lemma all_versions_key_in pre delim items e :
+  In e (all_versions pre delim items) -> exists o, In (ve_key e, o) items.
+Proof.
+  unfold all_versions. intros H. apply in_flat_map in H. destruct H as ([k o] & Hin & He).
+  cbn [fst snd] in He. destruct (prefix_match pre delim k); try destruct He.
+  apply obj_versions_key in He. subst k. exists o. exact Hin.
+Qed.
+
+Lemma asc_tail a l : vids_ascending (a :: l) -> vids_ascending l.
+Proof. destruct l as [|b l]; cbn; tauto. Qed.
+
+Lemma asc_head_lt l : forall a, vids_ascending (a :: l) -> Forall (fun x => (ve_vid a < ve_vid x)%N) l.
+Proof.
+  induction l as [|b l IH]; intros a H; [constructor|].
+  cbn [vids_ascending] in H. destruct H as [H1 H2]. constructor; [exact H1|].
+  specialize (IH b H2). eapply Forall_impl; [|exact IH]. cbn beta. intros x Hx. lia.
+Qed.
+
+Lemma filter_all_true {A} (f : A -> bool) l : Forall (fun x => f x = true) l -> filter f l = l.
+Proof. induction 1 as [|x l H _ IH]; cbn [filter]; [reflexivity|]. rewrite H, IH. reflexivity. Qed.
+
+(* strictly ascending ids: filtering on "id greater than that of e" keeps exactly what follows e *)
+Lemma filter_after e S : forall D, vids_ascending (D ++ e :: S) ->
+  filter (fun x => N.ltb (ve_vid e) (ve_vid x)) (D ++ e :: S) = S.
+Proof.
+  induction D as [|d D IH]; intros H.
+  - cbn [app filter]. rewrite N.ltb_irrefl. apply filter_all_true.
+    apply asc_head_lt in H. eapply Forall_impl; [|exact H]. cbn beta. intros x Hx. lia.
+  - cbn [app filter]. pose proof (asc_head_lt _ _ H) as Hd. rewrite Forall_forall in Hd.
+    assert (Hlt : (ve_vid d < ve_vid e)%N) by (apply Hd; apply in_or_app; right; left; reflexivity).
+    replace (N.ltb (ve_vid e) (ve_vid d)) with false by lia.
+    apply IH. eapply asc_tail. exact H.
+Qed.
+
+Lemma app_split_mid {A} (e : A) S Y : forall X D, D ++ e :: S = X ++ Y ->
+  (exists S1, X = D ++ e :: S1 /\ S = S1 ++ Y) \/ (exists D', D = X ++ D' /\ Y = D' ++ e :: S).
+Proof.
+  induction X as [|x X IH]; intros D H.
+  - right. exists D. auto.
+  - destruct D as [|d D]; cbn [app] in H.
+    + inversion H; subst. left. exists X. auto.
+    + inversion H; subst. destruct (IH D H2) as [(S1 & -> & ->)|(D' & -> & ->)].
+      * left. exists S1. auto.
+      * right. exists D'. auto.
+Qed.
+
+Lemma lb_In {V} k (m : list (list N * V)) k' v : lb k m -> In (k', v) m -> bltb k k' = true.
+Proof.
+  induction m as [|[k2 v2] m IH]; cbn [lb In]; [intros _ []|]. intros [H1 H2] [H|H].
+  - inversion H; subst. exact H1.
+  - apply IH; assumption.
+Qed.
+
+Lemma sm_seek_lb {V} k (m : list (list N * V)) k' v : bltb k' k = true ->
+  sm_seek k ((k', v) :: m) = sm_seek k m.
+Proof. intros H. cbn [sm_seek]. rewrite H. reflexivity. Qed.
+
+(* the page requested with the markers of entry e lists (without limit) exactly what follows
+   e in the full listing *)
+Lemma ventries_after pre delim next e S : forall objs D,
+  sorted objs -> (forall k o, In (k, o) objs -> obj_ok next o) ->
+  all_versions pre delim objs = D ++ e :: S -> ve_key e <> [] ->
+  ventries pre delim (ve_key e) (Some (ve_vid e)) (sm_seek (ve_key e) objs) = S.
+Proof.
+  induction objs as [|[k o] rest IH]; intros D Hs Hok Ha Hne.
+  - destruct D; discriminate.
+  - destruct Hs as [Hlb Hs].
+    unfold all_versions in Ha. cbn [flat_map fst snd] in Ha. fold (all_versions pre delim rest) in Ha.
+    symmetry in Ha. apply app_split_mid in Ha. destruct Ha as [(S1 & HX & ->)|(D' & -> & HY)].
+    + (* e is an entry of this key *)
+      destruct (prefix_match pre delim k) eqn:Epm; try (destruct D; discriminate).
+      assert (Hk : ve_key e = k).
+      { apply (obj_versions_key k o). rewrite HX. apply in_or_app. right. left. reflexivity. }
+      rewrite Hk in *. cbn [sm_seek]. rewrite bltb_irrefl.
+      unfold ventries. cbn [flat_map]. fold (ventries pre delim k (Some (ve_vid e)) rest). f_equal.
+      * unfold key_entries. cbn [fst snd]. rewrite Epm, beq_refl.
+        replace (beq k []) with false by (symmetry; apply beq_neq; exact Hne). cbn [negb andb].
+        rewrite HX. apply filter_after. rewrite <- HX. apply (obj_versions_ascending k o next).
+        apply (Hok k o). left. reflexivity.
+      * apply ventries_nomarker. right. intros [k' o'] Hin. cbn [fst]. intros ->.
+        pose proof (lb_In k rest k o' Hlb Hin) as Hlt. rewrite bltb_irrefl in Hlt. discriminate.
+    + (* e belongs to a later key *)
+      assert (Hin : In e (all_versions pre delim rest)).
+      { rewrite HY. apply in_or_app. right. left. reflexivity. }
+      apply all_versions_key_in in Hin. destruct Hin as [o' Hin].
+      rewrite sm_seek_lb by (eapply lb_In; eassumption).
+      apply (IH D'); auto. intros k' o'' H. apply (Hok k' o''). right. exact H.
+Qed.
+
+(* fuel induction: from any marker state whose unlimited entry list is a suffix S of the full
+   listing, the walk returns pages concatenating to S *)
+Lemma vwalk_gen pre delim mk objs next :
+  1 <= mk -> sorted objs -> (forall k o, In (k, o) objs -> obj_ok next o) -> ~ In [] (map fst objs) ->
+  forall fuel D S km vm,
+    all_versions pre delim objs = D ++ S ->
+    ventries pre delim km vm (match km with [] => objs | _ => sm_seek km objs end) = S ->
+    (length S < fuel)%nat ->
+    exists pages,
+      vwalk fuel pre delim mk objs km vm = Some pages /\
+      flat_map vl_entries pages = S /\
+      Forall (fun r => Z.of_nat (length (vl_entries r)) <= mk) pages /\
+      (exists r, last (map Some pages) None = Some r /\ vl_truncated r = false).
+Proof.
+  intros Hmk Hs Hok Hne. induction fuel as [|f IH]; intros D S km vm Ea Ev Hl; [lia|].
+  cbn [vwalk]. unfold vpage.
+  set (items := match km with [] => objs | _ => sm_seek km objs end) in *.
+  destruct (scan_page pre delim km vm mk Hmk items 0 [] []) as (l1 & l2 & E & C & B & T); [lia|].
+  set (r := scan_versions pre delim km vm mk items 0 [] []) in *.
+  cbn [app] in C. rewrite Ev in E.
+  destruct T as [[T1 T2]|(T1 & l & e & El & Tk & Tv)].
+  - rewrite T1. subst l2. rewrite app_nil_r in E. exists [r]. split; [reflexivity|].
+    cbn [flat_map map last]. rewrite app_nil_r. split; [congruence|].
+    split; [constructor; [rewrite C; lia|constructor]|]. exists r. auto.
+  - rewrite T1, Tk, Tv.
+    assert (Ea' : all_versions pre delim objs = (D ++ l) ++ e :: l2).
+    { rewrite Ea, E, El. rewrite <- !app_assoc. reflexivity. }
+    assert (Hke : ve_key e <> []).
+    { intros E0. apply Hne.
+      destruct (all_versions_key_in pre delim objs e) as [o Ho].
+      - rewrite Ea'. apply in_or_app. right. left. reflexivity.
+      - rewrite <- E0. change (ve_key e) with (fst (ve_key e, o)). apply in_map. exact Ho. }
+    destruct (IH (D ++ l1) l2 (ve_key e) (Some (ve_vid e))) as (pages & W & PC & PB & (rl & L1 & L2)).
+    + rewrite Ea, E, app_assoc. reflexivity.
+    + destruct (ve_key e) as [|c ke] eqn:Eke; [congruence|]. rewrite <- Eke.
+      apply (ventries_after pre delim next e l2 objs (D ++ l)); auto. congruence.
+    + rewrite E, El, !app_length in Hl. cbn [length] in Hl. lia.
+    + rewrite W. exists (r :: pages). split; [reflexivity|]. cbn [flat_map].
+      split; [rewrite PC, C, E; reflexivity|].
+      split; [constructor; [rewrite C; lia|exact PB]|].
+      exists rl. split; [|exact L2]. destruct pages as [|p0 pages]; [cbn in L1; discriminate|]. exact L1.
+Qed.
+
+(* (d) paging: following (NextKeyMarker, NextVersionIdMarker) terminates and the pages
+   concatenate to exactly the unpaginated listing — every entry once, none skipped *)
+Theorem vwalk_complete pre delim mk objs next :
+  1 <= mk -> sorted objs -> (forall k o, In (k, o) objs -> obj_ok next o) -> ~ In [] (map fst objs) ->
+  exists pages,
+    vwalk (S (length (all_versions pre delim objs))) pre delim mk objs [] None = Some pages /\
+    flat_map vl_entries pages = vl_entries (vunpaged pre delim objs) /\
+    Forall (fun r => Z.of_nat (length (vl_entries r)) <= mk) pages /\
+    (exists r, last (map Some pages) None = Some r /\ vl_truncated r = false).
+Proof.
+  intros Hmk Hs Hok Hne.
+  destruct (vwalk_gen pre delim mk objs next Hmk Hs Hok Hne
+              (S (length (all_versions pre delim objs))) [] (all_versions pre delim objs) [] None)
+    as (pages & W & PC & PB & PL).
+  - reflexivity.
+  - apply ventries_nomarker. left. reflexivity.
+  - lia.
+  - exists pages. rewrite (proj1 (vunpaged_exact pre delim objs)). auto.
+Qed.
+
 Print Assumptions vunpaged_exact.
+Print Assumptions vwalk_complete.
